@@ -1,9 +1,9 @@
 """property id -> rules, explanation of what is / is not decided"""
-from rules import r_coord, r_keyid, r_opcode, r_doaction
+from rules import r_coord, r_keyid, r_opcode, r_doaction, r_cancel
 
 PROPS = {
     "C01": {
-        "rules": [r_coord.run, r_doaction.rule_state_push],
+        "rules": [r_coord.run, r_doaction.rule_state_push, r_cancel.run],
         "explanation": "Decides structural clauses of 'no stuck output': (R-COORD) every State variant created at a "
                        "coordinate is removable by Release at that coordinate and the three coordinate predicates agree; "
                        "(R-STATE-PUSH) arms of do_action that create coordinate-keyed state do so on every path and the custom "
